@@ -560,8 +560,11 @@ Definition snapshot_block (s : coll) (b : N) : crec :=
                     | Some col => (λ i, mkop KPut i (default V0 (cells col !! i)))
                                     <$> filter (λ i, blk i = b) (sorted_elems (dom (cells col)))
                     | None => [] end)) <$> merge_sort N.le (elements (dom (cols s)))).
+(* Collection.chunks(): up to the block of the last live row; a collection whose rows were all
+   deleted still writes its first block (fill.Max() of an all-zero fill list is 0), which matters
+   only for values left on rows that are not live (a write to a row another transaction deleted) *)
 Definition nblocks (s : coll) : N :=
-  match sorted_elems (fill s) with [] => 0 | l => blk (List.last l 0) + 1 end.
+  match sorted_elems (fill s) with [] => 1 | l => blk (List.last l 0) + 1 end.
 Definition snapshot (s : coll) : list crec :=
   (λ b, snapshot_block s (N.of_nat b)) <$> seq 0 (N.to_nat (nblocks s)).
 Definition restore (fresh : coll) (snap : list crec) : coll := foldl replay fresh snap.
@@ -595,4 +598,37 @@ Definition res_fresh (r : res) : bool := match r with RIns _ _ false => false | 
 Definition txn_wf (s : coll) (body : list stmt) : bool :=
   let '(s1, t1, rs) := do_stmts s txn0 body in
   forallb res_fresh rs && forallb is_marker (trow t1) && writes_in_fill s1 t1.
+
+(* admissibility of the key operations (C12): a put must not hand a row a key another row holds,
+   judged in the state each operation - and each block's commit - meets *)
+Definition key_op_okb (cs : gmap N value) (o : op) : bool :=
+  match ok o with
+  | KPut => match oval o with VB _ => true | _ => false end &&
+            bool_decide (map_Forall (λ j v, j = ooff o ∨ v ≠ oval o) cs)
+  | _ => true
+  end.
+
+Fixpoint key_ops_okb (cs : gmap N value) (keys : gmap bytes N) (ops : list op) : bool :=
+  match ops with
+  | [] => true
+  | o :: r => key_op_okb cs o && key_ops_okb (fst (key_step (cs, keys) o)) (snd (key_step (cs, keys) o)) r
+  end.
+
+(* the key operations of every dirty block, each judged in the state its block's commit meets *)
+Definition block_keys_okb (s : coll) (t : txn) (b : N) : bool :=
+  match pk s with
+  | Some p => match cols s !! p with
+              | Some col => key_ops_okb (cells col) (keys s) (filter (λ o, in_blk b o = true) (buf t p))
+              | None => true end
+  | None => true end.
+
+Fixpoint blocks_keys_okb (s : coll) (t : txn) (bs : list N) : bool :=
+  match bs with
+  | [] => true
+  | b :: r => block_keys_okb s t b && blocks_keys_okb (commit_block s t b) t r
+  end.
+
+Definition txn_keys_ok (s : coll) (body : list stmt) : bool :=
+  let '(s1, t1, _) := do_stmts s txn0 body in blocks_keys_okb s1 t1 (dirty_blocks t1).
+
 
